@@ -929,7 +929,7 @@ func knownFinding(x *simrt.Ctx, class string, s scenario) string {
 			continue
 		}
 		parts := strings.SplitN(k.Signature, "|", 2)
-		if parts[0] != class && !(strings.HasPrefix(class, "cli_panic@") && strings.Contains(class, k.Signature)) {
+		if parts[0] != class && !(strings.Contains(class, "cli_panic@") && strings.Contains(class, k.Signature)) {
 			continue
 		}
 		if len(parts) == 2 && parts[1] != "name="+s.effectiveName() {
